@@ -16,8 +16,11 @@ RULE = ('1-3 populations of one ResourceMap from real temporary directory trees 
         'directory or to nothing), each with 1-3 rules (rule directory existing, a FIFO / a '
         'link to a file (ValueError), a link to a directory (populated through the link), a '
         'broken link (skipped), nested in another '
-        "rule's directory, missing 12%, a regular file 6%; extension filters 45%; distinct "
-        'extra arguments per rule), nest_on_conflict / trim_extensions drawn independently at '
+        "rule's directory, missing 12%, a regular file 6%; extension filters 45% given as "
+        'list / tuple / set / generator; one factory double shared by the rules of a populator; '
+        'extra arguments per rule: none / positionals only / keywords only / both, values '
+        "None, 0, '', tuples, sometimes the same extras for two rules), nest_on_conflict / "
+        'trim_extensions drawn independently at '
         'construction and per call (None = fall back); the same root is populated again in '
         'half of the multi-call cases; in half of the cases there is a second directory tree '
         '(passed per call through root=) which in 70% is a copy of the first in which some '
@@ -127,6 +130,31 @@ def flip(rng, t, top=True):
     return out
 
 
+POS_VALUES = ['A', 0, None, '', ['t', 1]]
+KW_VALUES = [None, 0, '', ['t', 1], 'v', 7]
+EXT_FORMS = ['list', 'tuple', 'set', 'gen']
+
+
+def gen_extra(rng):
+    """the rule's extra arguments: none / positionals only / keywords only / both"""
+    shape = rng.choice(['none', 'pos', 'kw', 'kw', 'both'])
+    args, kwargs = [], {}
+    if shape in ('pos', 'both'):
+        args = [rng.choice(POS_VALUES) for _ in range(rng.randint(1, 2))]
+    if shape in ('kw', 'both'):
+        for k in rng.sample(['k', 'opt'], rng.randint(1, 2)):
+            kwargs[k] = rng.choice(KW_VALUES)
+    return [args, kwargs]
+
+
+def sig_of(table, extra):
+    import json
+    key = json.dumps(extra, sort_keys=True)
+    if key not in table:
+        table[key] = len(table) + 1
+    return table[key]
+
+
 def gen_case(rng):
     nroots = rng.choice([1, 2, 2])
     roots = []
@@ -139,7 +167,7 @@ def gen_case(rng):
             t['d'][rng.choice(DIR_NAMES)] = gen_tree(rng, 1)
         roots.append(sanitize(t))
     calls = []
-    sig = 0
+    sigtab = {}
     for ci in range(rng.choice([1, 2, 2, 3, 3])):
         ri = (rng.randrange(nroots) if (ci == 0 or rng.random() < 0.6) else calls[-1]['root'])
         if ci == 0 and nroots == 2 and rng.random() < 0.6:
@@ -160,9 +188,11 @@ def gen_case(rng):
             else:
                 path = list(rng.choice(dps))
             exts = rng.choice(FILTERS) if rng.random() < 0.45 else []
-            sig += 1
-            rules.append({'path': path, 'exts': exts, 'sig': sig,
-                          'kw': rng.random() < 0.5})
+            extra = gen_extra(rng)
+            if rules and rng.random() < 0.2:
+                extra = rules[0]['extra']          # the same extras as another rule
+            rules.append({'path': path, 'exts': exts, 'sig': sig_of(sigtab, extra),
+                          'extra': extra, 'extform': rng.choice(EXT_FORMS)})
         calls.append({'root': ri, 'rules': rules,
                       'ctor': [rng.choice([None, True, True, False]),
                                rng.choice([None, True, False])],
@@ -194,11 +224,12 @@ def gen_layered_flip(rng):
     if rng.random() < 0.3:
         order.append(rng.choice([0, 1]))
     calls = []
-    sig = 0
+    sigtab = {}
     for ri in order:
-        sig += 1
+        extra = gen_extra(rng)
         calls.append({'root': ri,
-                      'rules': [{'path': [d], 'exts': [], 'sig': sig, 'kw': rng.random() < 0.5}],
+                      'rules': [{'path': [d], 'exts': [], 'sig': sig_of(sigtab, extra),
+                                 'extra': extra, 'extform': rng.choice(EXT_FORMS)}],
                       'ctor': [rng.choice([None, True, True]), trim],
                       'call': [rng.choice([None, None, True, False]), None]})
     return {'roots': roots, 'calls': calls}
@@ -352,19 +383,33 @@ def run(case):
                 ckw['trim_extensions'] = c['ctor'][1]
             pop = DirectoryResourcePopulator(root, **ckw)
             sigs = {}
-            for r in c['rules']:
-                args = ('A%d' % r['sig'],)
-                kwargs = {'k': r['sig']} if r['kw'] else {}
-                sigs[(args, tuple(sorted(kwargs.items())))] = r['sig']
 
-                def factory(filename, *a, **kw):
-                    h = Hd(len(handles), *a, **kw)
-                    handles.append(h)
-                    log.append([h.hid, filename,
-                                sigs.get((a, tuple(sorted(kw.items()))), -1)])
-                    return h
-                pop.add_rule('/'.join(r['path']), factory, *args,
-                             file_exts=list(r['exts']), **kwargs)
+            def freeze(v):
+                return tuple(freeze(x) for x in v) if isinstance(v, (list, tuple)) else v
+
+            def ekey(a, kw):
+                return (tuple((type(x).__name__, freeze(x)) for x in a),
+                        tuple(sorted((k, type(v).__name__, freeze(v)) for k, v in kw.items())))
+
+            # one factory shared by all the rules of this populator: which
+            # rule's extras it was called with is read from args and kwargs
+            def factory(filename, *a, **kw):
+                h = Hd(len(handles), *a, **kw)
+                handles.append(h)
+                log.append([h.hid, filename, sigs.get(ekey(a, kw), -1)])
+                return h
+            for r in c['rules']:
+                if 'extra' in r:
+                    args = tuple(freeze(x) for x in r['extra'][0])
+                    kwargs = {k: freeze(v) for k, v in r['extra'][1].items()}
+                else:
+                    args = ('A%d' % r['sig'],)
+                    kwargs = {'k': r['sig']} if r['kw'] else {}
+                sigs[ekey(args, kwargs)] = r['sig']
+                form = r.get('extform', 'list')
+                exts = {'list': list, 'tuple': tuple, 'set': set,
+                        'gen': lambda l: (x for x in l)}[form](r['exts'])
+                pop.add_rule('/'.join(r['path']), factory, *args, file_exts=exts, **kwargs)
             del recorded[:]
             n0 = len(log)
             kw = {}
